@@ -80,26 +80,31 @@ theorem dby_mono (y y' : Nat) (h1 : 1 ≤ y) (h : y ≤ y') : dby y ≤ dby y' :
     show dby y ≤ dby (n + 1)
     omega
 
+/-- a calendar date without the upper bound on the year (what the arithmetic needs) -/
+def ValidU (y m d : Nat) : Prop := 1 ≤ y ∧ 1 ≤ m ∧ m ≤ 12 ∧ 1 ≤ d ∧ d ≤ dim y m
+
+theorem Valid.toU {y m d : Nat} (v : Valid y m d) : ValidU y m d := by unfold Valid at v; unfold ValidU; omega
+
 /-- `ord` is strictly increasing in the lexicographic order of valid dates -/
-theorem ord_lt_year (y m d y' m' d' : Nat) (v : Valid y m d) (v' : Valid y' m' d') (h : y < y') :
+theorem ord_lt_year (y m d y' m' d' : Nat) (v : ValidU y m d) (v' : ValidU y' m' d') (h : y < y') :
     ord y m d < ord y' m' d' := by
-  unfold Valid at v v'
+  unfold ValidU at v v'
   have hl := leapDay_le y
-  have h1 := table_year (leapDay y) (by omega) m (by omega) v.2.2.1
+  have h1 := table_year (leapDay y) (by omega) m (by omega) v.2.1
   rw [← dbm_eq, ← dim_eq] at h1
   have h2 := dby_succ y v.1
   have h3 := dby_mono (y + 1) y' (by omega) (by omega)
   unfold ord; omega
 
-theorem ord_lt_month (y m d m' d' : Nat) (v : Valid y m d) (v' : Valid y m' d') (h : m < m') :
+theorem ord_lt_month (y m d m' d' : Nat) (v : ValidU y m d) (v' : ValidU y m' d') (h : m < m') :
     ord y m d < ord y m' d' := by
-  unfold Valid at v v'
+  unfold ValidU at v v'
   have hl := leapDay_le y
-  have h1 := table_mono (leapDay y) (by omega) m (by omega) m' (by omega) v.2.2.1 h
+  have h1 := table_mono (leapDay y) (by omega) m (by omega) m' (by omega) v.2.1 h
   rw [← dbm_eq, ← dim_eq, ← dbm_eq] at h1
   unfold ord; omega
 
-theorem ord_inj (y m d y' m' d' : Nat) (v : Valid y m d) (v' : Valid y' m' d')
+theorem ord_inj (y m d y' m' d' : Nat) (v : ValidU y m d) (v' : ValidU y' m' d')
     (h : ord y m d = ord y' m' d') : y = y' ∧ m = m' ∧ d = d' := by
   have hy : y = y' := by
     by_cases h1 : y < y'
@@ -123,17 +128,17 @@ theorem dby_2300 : dby 2300 = 839692 := by decide
 theorem dby_10000 : dby 10000 = 3652059 := by decide
 
 /-- a valid date's ordinal lies between January 1st of its year and of the next -/
-theorem ord_bounds (y m d : Nat) (v : Valid y m d) : dby y + 1 ≤ ord y m d ∧ ord y m d ≤ dby (y + 1) := by
-  unfold Valid at v
+theorem ord_bounds (y m d : Nat) (v : ValidU y m d) : dby y + 1 ≤ ord y m d ∧ ord y m d ≤ dby (y + 1) := by
+  unfold ValidU at v
   have hl := leapDay_le y
-  have h1 := table_year (leapDay y) (by omega) m (by omega) v.2.2.1
+  have h1 := table_year (leapDay y) (by omega) m (by omega) v.2.1
   rw [← dbm_eq, ← dim_eq] at h1
   have h2 := dby_succ y v.1
   unfold ord; omega
 
 /-- every representable date has an ordinal in `1 .. 3652059` (`datetime.max.toordinal()`) -/
 theorem ord_range (y m d : Nat) (v : Valid y m d) : 1 ≤ ord y m d ∧ ord y m d ≤ 3652059 := by
-  have h := ord_bounds y m d v
+  have h := ord_bounds y m d v.toU
   have := dby_mono (y + 1) 10000 (by omega) (by unfold Valid at v; omega)
   rw [dby_10000] at this
   omega
@@ -148,7 +153,7 @@ theorem ord_fromOrd (n : Nat) (h1 : ordMin ≤ n) (h2 : n < ordMax) :
 /-- a valid date in the cycle has its ordinal in the swept range -/
 theorem ord_in_cycle (y m d : Nat) (v : Valid y m d) (hy1 : 1900 ≤ y) (hy2 : y < 2300) :
     ordMin ≤ ord y m d ∧ ord y m d < ordMax := by
-  have h := ord_bounds y m d v
+  have h := ord_bounds y m d v.toU
   have a := dby_mono 1900 y (by omega) hy1
   have b := dby_mono (y + 1) 2300 (by omega) (by omega)
   rw [dby_1900] at a; rw [dby_2300] at b
@@ -160,7 +165,7 @@ theorem fromOrd_ord (y m d : Nat) (v : Valid y m d) (hy1 : 1900 ≤ y) (hy2 : y 
     fromOrd (ord y m d) = ⟨y, m, d⟩ := by
   have hc := ord_in_cycle y m d v hy1 hy2
   have h := ord_fromOrd (ord y m d) hc.1 hc.2
-  have e := ord_inj _ _ _ _ _ _ h.1 v h.2
+  have e := ord_inj _ _ _ _ _ _ h.1.toU v.toU h.2
   cases hp : fromOrd (ord y m d) with
   | mk a b c => rw [hp] at e; simp only at e; rw [e.1, e.2.1, e.2.2]
 
